@@ -731,10 +731,12 @@ func (w *cliWorld) checkC05Final() {
 		// error of Close is the only one that is none of the others
 		// Only errors the harness owns identify a cause: io.EOF (the peer hung
 		// up), the injected channel error, a closed-channel error (the reader saw
-		// its own channel closed: Close). Whatever else the client reports - nil
-		// or its own sentinel for an orderly Close or for the peer hanging up, its
-		// own description of an undecodable record - cannot be told apart here and
-		// is accepted for whichever cause occurred.
+		// its own channel closed: Close). nil says "stopped in good order" and is
+		// accepted for a Close only (the property says "with the first stop cause";
+		// nil for a peer that hung up hands over no cause). Whatever else the client
+		// reports - its own sentinel for an orderly Close or for the peer hanging
+		// up, its own description of an undecodable record - cannot be told apart
+		// here and is accepted for whichever cause occurred.
 		kind := "other"
 		switch e := w.onStopErr[0]; {
 		case e == nil:
